@@ -64,7 +64,7 @@ Theorem recs_bin_round_trip m a : ba_wf a -> image_bound a + 3 < 2 ^ 32 ->
 Proof.
   intros W B.
   assert (FIT : fits32 a) by (unfold fits32, U32; rewrite (ba_ser_bound a (bw_ptrs a W) (bw_cstrs a W)); exact B).
-  destruct (bin_round_trip_maps m a (ba_wf_wf_archive a W) FIT)
+  destruct (bin_round_trip_maps key_bytes m a (ba_wf_wf_archive a W) FIT)
     as (f & a' & Hs & _ & Hp & He & _ & _ & Hsz & Hd & Gt & Gp & Gl & _ & _ & N3).
   specialize (Hsz (bw_cstrs a W)). rewrite (bw_endian a W) in Hp.
   exists f, a'. split; [exact Hs|]. split; [exact Hp|].
